@@ -142,9 +142,13 @@ def gen_input(r, tree):
     if r.chance(0.7):
         v["workspace"] = r.pick([{"current_dir": tree.work}, {"current_dir": "/nonexistent/x"}, {"current_dir": 5}, {"current_dir": ["a"]}, {"current_dir": ""}, {}, 5, None, {"current_dir": "a\nb"}, {"current_dir": {"x": 1}}, {"current_dir": "/tmp/a\udc00b"}, {"current_dir": tree.work + "/\ud83d"}])
     if r.chance(0.5):
-        v["transcript_path"] = r.pick([os.path.join(tree.home, "t.jsonl"), "/nonexistent", 5, None, "", ["x"], tree.home])
+        v["transcript_path"] = r.pick([os.path.join(tree.home, "t.jsonl"), "/nonexistent", 5, None, "", ["x"], tree.home, 0, 1, 2, True, 1.0, {"a": 1}, "\ud800"])
     if r.chance(0.4):
-        v["context_window"] = r.pick([{"total_input_tokens": 5, "context_window_size": 200000}, {"total_input_tokens": "x"}, 5, None, {}, {"context_window_size": 0}, {"current_usage": {"input_tokens": 5}}, []])
+        v["context_window"] = r.pick([{"context_window_size": 200000}, {"context_window_size": 200000}, {"total_input_tokens": 5, "context_window_size": 200000}, {"total_input_tokens": "x"}, 5, None, {}, {"context_window_size": 0}, {"current_usage": {"input_tokens": 5}}, []])
+    if r.chance(0.15):
+        # the transcript is only consulted when a context window size is given: probe it with every kind of "path"
+        v["context_window"] = {"context_window_size": r.pick([200000, 1, 10**9])}
+        v["transcript_path"] = r.pick([0, 1, 2, True, False, 1.0, -1, 99999, {"a": 1}, ["x"], "\ud800", "", "\x00", tree.home, os.path.join(tree.home, "t.jsonl"), "/dev/stdout", "/proc/self/fd/1", "/dev/full", "/dev/zero"])
     if r.chance(0.2):
         v[r.pick(["exceeds_200k_tokens", "cost", "version", "x"])] = r.pick([True, 5, "s", None, {}])
     if r.chance(0.05):
@@ -197,6 +201,8 @@ def correspondence(ctx):
 
 
 def check_output(rc, out, err, value, allow_multiline):
+    if rc is None:
+        return "no exit within the time limit"
     if rc != 0:
         return "exit status %d" % rc
     if b"Traceback" in err:
@@ -213,7 +219,7 @@ def search(ctx):
     stats = collections.Counter()
     vios = []
     samples = []
-    n = ctx.scale(260, 8000) * (3 if ctx.broken else 1)
+    n = ctx.scale(420, 8000) * (3 if ctx.broken else 1)
 
     def one(seed_i):
         rr = rng("c20-search-%d" % seed_i)
